@@ -720,3 +720,89 @@ Proof.
     intros u Hu. apply status_at_tmin. exact Hinc.
   - rewrite map_map. symmetry. apply (log_rows_spec nodes ps tmin init log Hinc log [] eq_refl).
 Qed.
+
+(* ---------------- _transform_to_node_history_ (SIR) ---------------- *)
+Lemma assoc_hupd_same {V} (l : list (node * V)) u v : assoc (hupd l u v) u = Some v.
+Proof.
+  induction l as [|[k x] l IH]; cbn; [rewrite N.eqb_refl; reflexivity|].
+  destruct (N.eqb k u) eqn:E; cbn; rewrite E; [reflexivity|apply IH].
+Qed.
+
+Lemma assoc_hupd_other {V} (l : list (node * V)) u w v : u <> w -> assoc (hupd l u v) w = assoc l w.
+Proof.
+  intro Hn. induction l as [|[k x] l IH]; cbn.
+  - destruct (N.eqb u w) eqn:E; [apply N.eqb_eq in E; contradiction|reflexivity].
+  - destruct (N.eqb k u) eqn:E; cbn.
+    + apply N.eqb_eq in E. subst k. destruct (N.eqb u w) eqn:E2; [apply N.eqb_eq in E2; contradiction|reflexivity].
+    + destruct (N.eqb k w); [reflexivity|exact IH].
+Qed.
+
+Lemma assoc_notin {V} (l : list (node * V)) u : ~ In u (map fst l) -> assoc l u = None.
+Proof.
+  induction l as [|[k x] l IH]; intro H; [reflexivity|]. cbn. destruct (N.eqb k u) eqn:E.
+  - apply N.eqb_eq in E. subst. exfalso. apply H. left. reflexivity.
+  - apply IH. intro K. apply H. right. exact K.
+Qed.
+
+(* one pass (infection times with status I, or recovery times with status R) *)
+Lemma tr_fold tmin st : forall l acc u, NoDup (map fst l) ->
+  assoc (fold_left (tr_step tmin st) l acc) u =
+  match assoc l u with
+  | Some t => Some ((if Qeqb t tmin then [] else hget tmin acc u) ++ [(t, st)])
+  | None => assoc acc u
+  end.
+Proof.
+  induction l as [|[k t] r IH]; intros acc u Hn; [reflexivity|].
+  cbn [map fst] in Hn. inversion Hn as [|? ? Hk Hr]; subst.
+  cbn [fold_left]. rewrite (IH _ u Hr). cbn [assoc]. unfold tr_step at 1 2. cbn [fst snd].
+  destruct (N.eqb k u) eqn:E.
+  - apply N.eqb_eq in E. subst k. rewrite (assoc_notin r u Hk). apply assoc_hupd_same.
+  - assert (k <> u) as Hku by (intro K; subst; rewrite N.eqb_refl in E; discriminate).
+    destruct (assoc r u) as [t'|].
+    + unfold hget. rewrite (assoc_hupd_other acc k u _ Hku). reflexivity.
+    + apply assoc_hupd_other. exact Hku.
+Qed.
+
+(* the history the code builds for node u from the two tables, including the reset
+   of everything recorded so far when a time equals tmin *)
+Definition sir_history (tmin : Q) (ti tr : option Q) : option history :=
+  let h1 := match ti with
+            | Some t => Some ((if Qeqb t tmin then [] else [(tmin, stS)]) ++ [(t, stI)])
+            | None => None
+            end in
+  match tr with
+  | Some t => Some ((if Qeqb t tmin then [] else match h1 with Some h => h | None => [(tmin, stS)] end) ++ [(t, stR)])
+  | None => h1
+  end.
+
+Lemma transform_SIR_spec tmin inf rec u : NoDup (map fst inf) -> NoDup (map fst rec) ->
+  assoc (transform_SIR tmin inf rec) u = sir_history tmin (assoc inf u) (assoc rec u).
+Proof.
+  intros Hi Hr. unfold transform_SIR, sir_history. rewrite (tr_fold tmin stR rec _ u Hr).
+  unfold hget. rewrite (tr_fold tmin stI inf [] u Hi). cbn [assoc].
+  destruct (assoc rec u) as [t|]; destruct (assoc inf u) as [t'|]; reflexivity.
+Qed.
+
+(* with infection no earlier than tmin and recovery no earlier than infection, every
+   history built is legal for SIR: starts at tmin, ordered, S->I->R *)
+Lemma sir_history_good tmin ti tr h :
+  (forall t, ti = Some t -> tmin <= t) ->
+  (forall t, tr = Some t -> exists t', ti = Some t' /\ t' <= t) ->
+  sir_history tmin ti tr = Some h ->
+  good_histb [stS; stI; stR] [(stS, stI); (stI, stR)] tmin h = true.
+Proof.
+  intros Hi Hr H. unfold sir_history in H.
+  assert (Rf : Qeqb tmin tmin = true) by (apply qeqb_t; reflexivity).
+  destruct tr as [t|].
+  - destruct (Hr t eq_refl) as [t' [Et' Hle]]. subst ti. specialize (Hi t' eq_refl).
+    inversion H; subst h. clear H.
+    destruct (Qeqb t tmin) eqn:E1.
+    + unfold good_histb, wf_histb. cbn. rewrite E1. reflexivity.
+    + destruct (Qeqb t' tmin) eqn:E2.
+      * unfold good_histb, wf_histb. cbn. rewrite E2, (proj2 (qleb_t t' t) Hle). reflexivity.
+      * unfold good_histb, wf_histb. cbn. rewrite Rf, (proj2 (qleb_t tmin t') Hi), (proj2 (qleb_t t' t) Hle). reflexivity.
+  - destruct ti as [t'|]; [|discriminate]. specialize (Hi t' eq_refl). inversion H; subst h. clear H.
+    destruct (Qeqb t' tmin) eqn:E2.
+    + unfold good_histb, wf_histb. cbn. rewrite E2. reflexivity.
+    + unfold good_histb, wf_histb. cbn. rewrite Rf, (proj2 (qleb_t tmin t') Hi). reflexivity.
+Qed.
